@@ -13,7 +13,7 @@ From IE Require Import Lib.Tbl Lib.C05Lib Lib.C02Lib Gen.Codepage Gen.Formats Ge
 From IE Require Model.Sauce Proofs.SauceProofs Props.C11 Lib.C17Lib Model.Font Model.Tdf Props.C17 Model.PaletteFiles.
 From IE Require Import Model.C02Text Proofs.C02TextProofs.
 From IE Require Import Gen.C02Pal Model.C02Pal Proofs.C02PalProofs.
-From IE Require Model.TermCore Model.FileCore Gen.FileAnsiTok Gen.FileEmu Gen.FilePetscii Proofs.FileInv Gen.FileAnsiSafeW Gen.FileEmuSafeW Model.FileLoad Proofs.FileLoadProofs.
+From IE Require Model.TermCore Model.FileCore Gen.FileAnsiTok Gen.FileEmu Gen.FilePetscii Proofs.FileInv Gen.FileAnsiSafeW Gen.FileEmuSafeW Gen.FileMacroFuel Model.FileLoad Proofs.FileLoadProofs.
 Import ListNotations.
 
 (* ------------------------------------------------------------------------------ stand-alone extractors (re-exported) *)
@@ -155,22 +155,19 @@ Theorem file_initial_state : forall w0 h0 s rows fg bg ice, (1 <= w0)%Z -> FileL
   FileInv.W (FileLoad.file_term w0 h0 s rows fg bg ice).
 Proof. exact FileLoadProofs.file_term_W. Qed.
 
-(* ansi::Parser::print_char on a file buffer: every parser state, every character, any macro table, any nesting bound -
-   an action or an error value on a W state again; never a panic; the nesting overflow only while a macro is stored *)
+(* ansi::Parser::print_char on a file buffer: every parser state, every character, any macro table, any value of the nesting counter
+   (fuel = MAX_MACRO_NESTING - counter) - an action or an error value (ODeep = MacroNestingTooDeep) on a W state again; never a panic *)
 Theorem file_ansi_char_total : forall fuel m ch, FileInv.W (FileAnsiTok.tm m) ->
   match FileAnsiTok.astep fuel m ch with
-  | FileAnsiTok.OOk m' | FileAnsiTok.OErr m' => FileInv.W (FileAnsiTok.tm m')
+  | FileAnsiTok.OOk m' | FileAnsiTok.OErr m' | FileAnsiTok.ODeep m' => FileInv.W (FileAnsiTok.tm m')
   | FileAnsiTok.OPanic _ => False
-  | FileAnsiTok.ODiverge => FileAnsiTok.macros (FileAnsiTok.ps m) <> []
   end.
 Proof. exact FileAnsiSafeW.astep_char_total. Qed.
 
-(* ANSI, Avatar, PCBoard, Ctrl-A, Renegade on a file buffer, EVERY stream from EVERY W state: it ends in a W state, or it stops
-   in the macro-nesting overflow at a character processed with a macro stored *)
+(* ANSI, Avatar, PCBoard, Ctrl-A, Renegade on a file buffer, EVERY stream from EVERY W state: it ends in a W state
+   (before the nesting limit: "... or it stops in the macro-nesting overflow at a character processed with a macro stored") *)
 Theorem file_wrappers_stream_total : forall e cs m, FileEmuSafeW.wrapper e = true -> FileInv.W (FileEmu.mt m) ->
-  (exists m', FileEmu.run e m cs = FileEmu.RunOk m' /\ FileInv.W (FileEmu.mt m')) \/
-  (FileEmu.run e m cs = FileEmu.RunDiverge /\
-   exists pre c post m', cs = pre ++ c :: post /\ FileEmu.run e m pre = FileEmu.RunOk m' /\ FileEmuSafeW.Stored m').
+  exists m', FileEmu.run e m cs = FileEmu.RunOk m' /\ FileInv.W (FileEmu.mt m').
 Proof. exact FileEmuSafeW.run_np. Qed.
 
 (* ASCII, ATASCII, PETSCII on a file buffer: every stream from every W state ends in a W state *)
@@ -191,27 +188,38 @@ Theorem sixel_epilogue_total : forall fw fh done, FileLoadProofs.SixelOk fw fh d
 Proof. exact FileLoadProofs.sixel_epilogue_ok. Qed.
 
 (* ALL eight text loaders (ans/ice/diz/unknown, avt, pcb, asc, msg, an1-an9, seq, ata), every SAUCE record, every character
-   list: a buffer - or, for the five loaders with an ANSI parser inside, the macro-nesting overflow; never a panic *)
+   list: a buffer or an error value; never a panic; no exception (the type FileLoad.tout lost its fourth constructor TOverflow) *)
 Theorem text_load_total : forall f s fw fh done serr cs, FileLoadProofs.fsauce_nonneg s -> FileLoadProofs.SixelOk fw fh done ->
   match FileLoad.text_load f s fw fh done serr cs with
   | FileLoad.TOk _ _ | FileLoad.TErr => True
   | FileLoad.TPanic _ => False
-  | FileLoad.TOverflow => FileLoadProofs.text_overflow f s cs
   end.
 Proof. exact FileLoadProofs.text_load_total_proof. Qed.
-(* ASCII, PETSCII (seq) and ATASCII files: no exception *)
+Theorem text_load_returns : forall f s fw fh done serr cs, FileLoadProofs.fsauce_nonneg s -> FileLoadProofs.SixelOk fw fh done ->
+  (exists t l, FileLoad.text_load f s fw fh done serr cs = FileLoad.TOk t l) \/ FileLoad.text_load f s fw fh done serr cs = FileLoad.TErr.
+Proof. exact FileLoadProofs.text_load_returns. Qed.
+(* (kept) ASCII, PETSCII (seq) and ATASCII files *)
 Theorem text_load_no_ansi_total : forall f s fw fh done serr cs,
   (f = FileLoad.TAsc \/ f = FileLoad.TSeq \/ f = FileLoad.TAta) -> FileLoadProofs.fsauce_nonneg s -> FileLoadProofs.SixelOk fw fh done ->
   (exists t l, FileLoad.text_load f s fw fh done serr cs = FileLoad.TOk t l) \/ FileLoad.text_load f s fw fh done serr cs = FileLoad.TErr.
 Proof. exact FileLoadProofs.text_load_standalone_total. Qed.
 
-(* Known 2 (= C01-stackoverflow:invoke_macro_by_id reached through a file): the content stores a macro that invokes itself.
+(* Known 2 (= C01-stackoverflow:invoke_macro_by_id reached through a file: the content stores a macro that invokes itself) is REPAIRED
+   (fix 2513579, MAX_MACRO_NESTING): fixed_2_witness - the file loads; known_2_before_fix_refuted - the old behaviour as a statement about the
+   same model: in the state that file reaches, the invocation nests to EVERY limit (without one: until the stack is gone).
    Known 3 (C02-sixel-font0, new): a sixel next to a font 0 that a `CTerm:Font:0:` DCS string replaced by one of width / height 0,
    >= 2^30 or >= 2^31 - the epilogue divides by the font size, multiplies the cursor by it, makes a layer of that many cells. *)
-Definition KnownC02_2 := FileMacroCrash.
 Definition KnownC02_3 (fw fh : Z) (done : list FileLoad.sixel) : Prop := ~ FileLoadProofs.SixelOk fw fh done.
-Theorem known_2_witness : FileLoad.text_load FileLoad.TAns None 8 16 [] false FileLoadProofs.macro_bomb = FileLoad.TOverflow.
-Proof. exact FileLoadProofs.macro_overflow_witness. Qed.
+Theorem fixed_2_witness :
+  match FileLoad.text_load FileLoad.TAns None 8 16 [] false FileLoadProofs.macro_bomb with
+  | FileLoad.TOk t [] => (TermCore.bh t, TermCore.cx t, TermCore.cy t) = (0, 0, 0)%Z | _ => False end.
+Proof. exact FileLoadProofs.macro_bomb_loads. Qed.
+Theorem known_2_before_fix_refuted : forall n, FileAnsiTok.astep n FileMacroFuel.self_state 122 = FileAnsiTok.ODeep FileMacroFuel.self_after.
+Proof. exact FileMacroFuel.macro_self_reaches_every_limit. Qed.
+(* the limit only cuts, on a file buffer as well: an outcome that is not the nesting error is the outcome for every larger limit *)
+Theorem file_macro_limit_only_cuts : forall k fuel m ch,
+  (forall d, FileAnsiTok.astep fuel m ch <> FileAnsiTok.ODeep d) -> FileAnsiTok.astep (fuel + k) m ch = FileAnsiTok.astep fuel m ch.
+Proof. exact FileMacroFuel.astep_fuel_irrelevant. Qed.
 Theorem known_3_witness :
   FileLoad.sixel_epilogue 0 16 [FileLoad.mkSx 0 0 4 6] = TermCore.RPanic FileLoad.SITE_SIXEL_DIV /\
   FileLoad.sixel_epilogue 1073741824 16 [FileLoad.mkSx 2 0 4 6] = TermCore.RPanic FileLoad.SITE_SIXEL_MUL /\
@@ -221,25 +229,21 @@ Proof.
 Qed.
 
 (* the hypothesis of from_bytes_total, for the model of the text loaders: for every decoder `conv` of the content bytes and
-   every sane sixel oracle, a text loader that "panics" is in the macro class *)
+   every sane sixel oracle, a text loader never "panics" (before the nesting limit: "... is in the macro class") *)
 Theorem text_load_hypothesis_discharged : forall conv sixels f content s,
-  SaneOracle sixels -> sauce_nonneg s -> text_load_model conv sixels f content s = OPanic -> MacroCrash conv f content s.
+  SaneOracle sixels -> sauce_nonneg s -> text_load_model conv sixels f content s <> OPanic.
 Proof. exact text_load_model_total. Qed.
 
-(* Buffer::from_bytes WITHOUT a hypothesis on the text loaders: for every date parser, decoder, container oracle, payload
-   decoder, every extension and every byte string - outside Known 2 (and with a sane sixel oracle = outside Known 3) *)
+(* Buffer::from_bytes WITHOUT a hypothesis on the text loaders and WITHOUT a known class of contents: for every date parser, decoder,
+   container oracle, payload decoder, every extension and every byte string (with a sane sixel oracle = outside Known 3).
+   (from_bytes_crash_is_macro, "a crash of from_bytes IS a macro crash of a text loader", would now have a false premise: removed.) *)
 Theorem from_bytes_total_unconditional :
   forall (dp : list N -> option Sauce.ymd) (conv : list N -> list Z) (sixels : sixel_oracle)
          (icy_chunks : list N -> option (list (kind * list N))) (font_ok pal_ok sauce_ok : list N -> bool),
-  SaneOracle sixels -> forall ext bytes, ~ KnownC02_2 dp conv ext bytes ->
+  SaneOracle sixels -> forall ext bytes,
   from_bytes dp (text_load_model conv sixels) icy_chunks font_ok pal_ok sauce_ok ext bytes <> OPanic.
 Proof. exact from_bytes_total_unconditional. Qed.
-(* the same, positively: a crash of from_bytes IS a macro crash of a text loader *)
-Theorem from_bytes_crash_is_macro :
-  forall dp conv sixels icy_chunks font_ok pal_ok sauce_ok, SaneOracle sixels -> forall ext bytes,
-  from_bytes dp (text_load_model conv sixels) icy_chunks font_ok pal_ok sauce_ok ext bytes = OPanic -> KnownC02_2 dp conv ext bytes.
-Proof. exact from_bytes_crash_is_macro. Qed.
-(* extensions that resolve to a loader without an ANSI parser inside (asc, seq, ata and the six binary formats): no exception *)
+(* (kept) extensions that resolve to a loader without an ANSI parser inside (asc, seq, ata and the six binary formats) *)
 Theorem from_bytes_no_ansi_total :
   forall dp conv sixels icy_chunks font_ok pal_ok sauce_ok, SaneOracle sixels -> forall ext bytes,
   (fmt_of_ext ext = FAsc \/ fmt_of_ext ext = FSeq \/ fmt_of_ext ext = FAta \/ is_text (fmt_of_ext ext) = false) ->
@@ -266,7 +270,7 @@ Example icy_layer_cut : dec_layer [1; 0; 0; 0; 76; 0; 0; 0]%N = Err 1.
 Proof. vm_compute. reflexivity. Qed.
 
 (* text loaders: the inputs of fix d135f2b (cursor up in row 0, then insert / delete line) load; a SAUCE record of height 0 is fine;
-   `A LF B` gives two rows; a file that is only a macro bomb is the overflow class *)
+   `A LF B` gives two rows; a file that is only a macro bomb loads (fixed_2_witness) *)
 Example ans_cursor_up_insert_line :
   match FileLoad.text_load FileLoad.TAns None 8 16 [] false [27; 91; 65; 27; 91; 76]%Z with FileLoad.TOk t [] => TermCore.bh t = 1%Z | _ => False end.
 Proof. vm_compute. reflexivity. Qed.
